@@ -53,7 +53,7 @@ def run(ctx):
         st = harness(["run", cdir, work, ctx.seed, n, shards, rounds])
     finally:
         shutil.rmtree(work, ignore_errors=True)
-    # volume scenario: set members across two memtable flushes of the Fjall store (tombstones must keep
+    # volume scenario: set members across two memtable flushes of each store (tombstones must keep
     # shadowing older on-disk tables); the short histories above never leave the memtable
     vdir = os.path.join(ctx.rundir, "volume")
     shutil.rmtree(vdir, ignore_errors=True)
@@ -82,7 +82,7 @@ def run(ctx):
         real_fail = [m for m in real_fail if "atomic probe" not in m]
     if not vol.get("ok"):
         ctx.violation("volume_fail.json", {
-            "what": "Fjall backend, volume scenario: after memtable flushes a member scan returned something else than the reference set (a deleted member came back, or an inserted one was lost)",
+            "what": "volume scenario (both backends): after memtable flushes a member scan returned something else than the reference set (a deleted member came back, or an inserted one was lost)",
             "input": "set column Tags (Key=u32, Element=String): insert members under keys 7 and 8, write ~75 MB of filler (forces a flush), delete/re-insert members, write filler again, scan; reopen, scan",
             "observed": vol.get("fails"), "rerun": f"{FJVOL} /tmp/c11_volume"})
     for msg in real_fail[:1]:
